@@ -6,6 +6,7 @@
 Require Import PV.Base.Prelude PV.Base.Utf8 PV.Base.Fnv PV.Base.F64 PV.Base.StrFacts PV.Base.SortFacts PV.Base.Utf8Facts.
 Require Import PV.Model.Proto PV.Model.Desc PV.Model.Value PV.Model.Hist PV.Model.Vec PV.Model.Registry PV.Model.World.
 Require Import PV.Proofs.DescFacts PV.Proofs.C05Facts PV.Proofs.HistFacts PV.Spec.SpecC05.
+Require PV.Proofs.C12More PV.Spec.SpecC12 PV.Proofs.C12Spec.
 From Coq Require Import Permutation Sorting.Sorted.
 Open Scope N_scope.
 
@@ -130,6 +131,8 @@ Lemma Forall2_length {A B} (P : A -> B -> Prop) l1 l2 : Forall2 P l1 l2 -> lengt
 Proof. induction 1; cbn; auto. Qed.
 Lemma Forall2_snoc {A B} (P : A -> B -> Prop) l1 l2 a b : Forall2 P l1 l2 -> P a b -> Forall2 P (l1 ++ [a]) (l2 ++ [b]).
 Proof. intros H Hab. apply Forall2_app; auto. Qed.
+Lemma list_set_nth_same {A} (l : list A) i d : list_set l i (nth i l d) = l.
+Proof. revert i; induction l as [|x l IH]; intros [|i]; cbn; auto. rewrite IH. reflexivity. Qed.
 Lemma upd_nth_length {A} (l : list A) i f : length (upd_nth l i f) = length l.
 Proof. revert i; induction l as [|x l IH]; intros [|i]; cbn; auto. Qed.
 
@@ -150,7 +153,7 @@ Proof.
   revert n; induction a as [|c a IH]; intros n; cbn [app live_entries length]; [reflexivity|].
   rewrite IH. replace (length a + S n)%nat with (S (length a + n))%nat by lia. destruct (c_live c); reflexivity.
 Qed.
-Definition kill (c : child) : child := mkChild (c_vec c) (c_tuple c) (c_key c) false (c_val c) (c_obs c).
+Definition kill (c : child) : child := mkChild (c_vec c) (c_tuple c) (c_key c) false (c_val c) (c_obs c) (c_sum c).
 Lemma live_entries_snd kids n x : In x (map snd (live_entries kids n)) -> (n <= x)%nat.
 Proof.
   revert n; induction kids as [|c r IH]; intros n; cbn [live_entries]; [intros []|].
@@ -228,6 +231,7 @@ Definition allowed_value (nk : numkind) (o : op) : bool :=
   | OpInc _ | OpIncBy _ _ | OpDec _ | OpAdd _ _ | OpSub _ _ | OpSet _ _
   | OpGet _ | OpCollect _ | OpClone _ | OpFlush _ | OpLvRemove _ _ => true
   | OpLocal sl => Nat.eqb sl O
+  | OpDrop sl => negb (Nat.eqb sl O)
   | OpLvInc _ _ d => numkind_eqb (flavour d) nk
   | _ => false
   end.
@@ -304,6 +308,18 @@ Section SimValue.
     - apply Forall2_list_set; auto.
     - destruct sl as [|sl]; [|destruct (s_slots s); [discriminate|exact F]].
       unfold ent in Hs. rewrite (nth_error_nth _ _ _ F) in Hs. discriminate.
+  Qed.
+
+  Lemma R_drop_slot s w sl e h : R s w -> sl <> O -> srel (length (s_kids s)) e h -> R (set_slot s sl e) (put_slot w sl h).
+  Proof.
+    intros [A B C D E F] Hs Hr. constructor; cbn [set_slot put_slot set_slots s_vecs s_kids s_slots w_vec w_v w_slots]; auto.
+    - apply Forall2_list_set; auto.
+    - destruct sl as [|sl]; [congruence|]. destruct (s_slots s); [discriminate|exact F].
+  Qed.
+  Lemma R_drop_none s w sl : R s w -> ent s sl = SNone -> R (set_slot s sl SNone) w.
+  Proof.
+    intros [A B C D E F] Hs. unfold ent in Hs.
+    constructor; cbn [set_slot s_vecs s_kids s_slots]; auto; rewrite <- Hs, list_set_nth_same; auto.
   Qed.
 
   (* ---- lookup-or-create ---- *)
@@ -504,19 +520,19 @@ Section SimValue.
     induction 1 as [|[[[[t' k'] c'] p] po] we cache wc [-> Ht'] H IH]; intros s w HR; cbn [flush_all fold_left] in *.
     - auto.
     - cbn [flush_entry].
-      assert (Hg : forall a, c_live (book_obs po (book_val (fun v => if num_is_zero p then v else num_add v p) a)) = c_live a
-                          /\ c_tuple (book_obs po (book_val (fun v => if num_is_zero p then v else num_add v p) a)) = c_tuple a)
-        by (intros a; split; reflexivity).
+      assert (Hg : forall a, c_live (book_batch po (book_val (fun v => if num_is_zero p then v else num_add v p) a)) = c_live a
+                          /\ c_tuple (book_batch po (book_val (fun v => if num_is_zero p then v else num_add v p) a)) = c_tuple a)
+        by (intros a; destruct po; split; reflexivity).
       destruct (num_is_zero p) eqn:Z.
-      + specialize (IH (on_child s c' (fun k => book_obs po (book_val (fun v => v) k))) w).
+      + specialize (IH (on_child s c' (fun k => book_batch po (book_val (fun v => v) k))) w).
         destruct IH as (A & B & C & D).
-        { apply R_cell_id; [exact HR| |exact Hg]. intros a b Hab. exact Hab. }
+        { apply R_cell_id; [exact HR| |exact Hg]. intros a b Hab. destruct po; exact Hab. }
         unfold flush_all in *. split; [exact A|]. split; [exact B|]. split; [exact C|].
         rewrite D. unfold on_child. cbn [set_kids s_kids]. apply upd_nth_length.
-      + specialize (IH (on_child s c' (fun k => book_obs po (book_val (fun v => num_add v p) k)))
+      + specialize (IH (on_child s c' (fun k => book_batch po (book_val (fun v => num_add v p) k)))
                        (set_v w (upd (w_v w) c' (fun vc => mkVCore (vc_desc vc) (vc_type vc) (num_add (vc_val vc) p) (vc_labels vc))))).
         destruct IH as (A & B & C & D).
-        { apply R_cell; [exact HR| |exact Hg]. intros a b (Hv & Hl & Hty & Hvec & Hin). unfold crelv. cbn. rewrite Hv. auto. }
+        { apply R_cell; [exact HR| |exact Hg]. intros a b (Hv & Hl & Hty & Hvec & Hin). unfold crelv. destruct po; cbn; rewrite Hv; auto. }
         unfold flush_all in *. split; [exact A|]. split; [exact B|]. split; [exact C|].
         rewrite D. unfold on_child. cbn [set_kids s_kids]. apply upd_nth_length.
   Qed.
@@ -554,7 +570,7 @@ Section SimValue.
     - destruct U as (e & ->). cbn. eauto.
   Qed.
   Lemma reset_kids kids cells : Forall2 crelv kids cells ->
-    let kids' := map (fun c => if Nat.eqb (c_vec c) O then mkChild (c_vec c) (c_tuple c) (c_key c) false (c_val c) (c_obs c) else c) kids in
+    let kids' := map (fun c => if Nat.eqb (c_vec c) O then mkChild (c_vec c) (c_tuple c) (c_key c) false (c_val c) (c_obs c) (c_sum c) else c) kids in
     Forall2 crelv kids' cells /\ (forall n, live_entries kids' n = []) /\ length kids' = length kids.
   Proof.
     cbn zeta. induction 1 as [|c x kids cells Hc H IH]; cbn [map live_entries length].
@@ -654,6 +670,13 @@ Section SimValue.
       + rewrite D. constructor. apply cleared_rel. exact Hc.
     - (* OpClone *)
       slots HR s0; rd; (eexists; split; [reflexivity|]); apply R_push; try exact HR; constructor; auto. split; constructor.
+    - (* OpDrop of any handle but the vector's own *)
+      apply negb_true_iff in Ha. apply Nat.eqb_neq in Ha.
+      slots HR s0.
+      + rd. eexists; split; [reflexivity|]. apply R_drop_none; [exact HR|symmetry; exact Ee].
+      + rd. eexists; split; [reflexivity|]. apply R_drop_slot; [exact HR|exact Ha|constructor].
+      + rd. eexists; split; [reflexivity|]. apply R_drop_slot; [exact HR|exact Ha|constructor].
+      + rewrite Evs. rd. rewrite Hkind. eexists; split; [destruct tk; reflexivity|]. apply R_drop_slot; [exact HR|exact Ha|constructor].
     - (* OpLvInc *)
       slots HR s0; try done_same HR.
       apply numkind_eqb_eq in Ha.
@@ -800,21 +823,83 @@ Proof.
     cbn [run step walk]. rewrite Ev. cbn [walk sstep new_vec]. cbn in Hb. cbn. rewrite Hb. reflexivity.
 Qed.
 
-(* ================= 4. histogram vectors (direct observations) ================= *)
+(* ================= 4. histogram vectors ================= *)
 Definition allowed_hist (o : op) : bool :=
   match o with
   | OpWith _ _ | OpWithMap _ _ | OpRemove _ _ | OpRemoveMap _ _
-  | OpObserve _ _ | OpSampleCount _ | OpSampleSum _ | OpCollect _ | OpClone _ => true
-  | OpReset sl => Nat.eqb sl O
+  | OpObserve _ _ | OpSampleCount _ | OpSampleSum _ | OpCollect _ | OpClone _
+  | OpFlush _ | OpLvObserve _ _ _ | OpLvRemove _ _ => true
+  | OpReset sl | OpLocal sl => Nat.eqb sl O
+  | OpDrop sl => negb (Nat.eqb sl O)
   | _ => false
   end.
 
-Lemma hist_values_obs l : hist_values (map HObserve l) = l.
-Proof. unfold hist_values. induction l as [|x l IH]; cbn; [reflexivity|]. f_equal. exact IH. Qed.
-Lemma direct_obs l : direct_only (map HObserve l).
-Proof. unfold direct_only. induction l; cbn; constructor; auto. Qed.
-Lemma spec_sum_obs l : spec_sum (map HObserve l) = obs_sum l.
-Proof. rewrite spec_sum_direct by apply direct_obs. rewrite hist_values_obs. reflexivity. Qed.
+(* counts stay far from the u64 range: every child has absorbed, and every local cache entry buffers, fewer than 2^63
+   observations (so that a flush cannot wrap a count) - evaluated on the ledger along the run *)
+Definition small_n (n : nat) : bool := N.of_nat n <? two63.
+Definition entry_small (e : centry) : bool := let '(_, _, _, _, po) := e in small_n (length po).
+Definition slot_small (e : sent) : bool := match e with SLocal _ cache => forallb entry_small cache | _ => true end.
+Definition kids_small (s : st) : bool := forallb (fun c => small_n (length (c_obs c))) (s_kids s).
+Definition st_small (s : st) : bool := kids_small s && forallb slot_small (s_slots s).
+Lemma kids_small_nth s i c : kids_small s = true -> nth_error (s_kids s) i = Some c -> N.of_nat (length (c_obs c)) < two63.
+Proof.
+  unfold kids_small. rewrite forallb_forall. intros H E. apply N.ltb_lt. apply (H c). eapply nth_error_In; eauto.
+Qed.
+Fixpoint small_walk (s : st) (ops : list op) (obs : list obs) : bool :=
+  st_small s &&
+  match ops, obs with
+  | o :: ops', ob :: obs' => match sstep key0 same0 s o ob with Some s' => small_walk s' ops' obs' | None => true end
+  | _, _ => true
+  end.
+Lemma st_small_nth s i c : st_small s = true -> nth_error (s_kids s) i = Some c -> N.of_nat (length (c_obs c)) < two63.
+Proof.
+  unfold st_small. rewrite andb_true_iff. intros [H _]. apply kids_small_nth. exact H.
+Qed.
+Lemma st_small_entry s sl v cache e : st_small s = true -> ent s sl = SLocal v cache -> In e cache -> entry_small e = true.
+Proof.
+  unfold st_small, ent. rewrite andb_true_iff, !forallb_forall. intros [_ H] E Hin.
+  destruct (nth_error (s_slots s) sl) as [x|] eqn:En.
+  - rewrite (nth_error_nth _ _ _ En) in E. subst x. specialize (H _ (nth_error_In _ _ En)). cbn [slot_small] in H.
+    rewrite forallb_forall in H. auto.
+  - rewrite (nth_overflow _ _ (proj1 (nth_error_None _ _) En)) in E. discriminate.
+Qed.
+Lemma two63_double a b : a < two63 -> b < two63 -> a + b < two64.
+Proof. unfold two63, two64. lia. Qed.
+
+(* the histogram part of a ledger entry as the books of SpecC12 (count, sum, values) *)
+Definition hb_of (c : child) : SpecC12.hbook := SpecC12.mkHB (N.of_nat (length (c_obs c))) (c_sum c) (c_obs c).
+Lemma hb_of_observe c x : hb_of (book_observe x c) = SpecC12.hb_observe (hb_of c) x.
+Proof.
+  unfold hb_of, book_observe, SpecC12.hb_observe. cbn. f_equal. rewrite app_length. cbn [length]. lia.
+Qed.
+Lemma hb_of_batch c po : hb_of (book_batch po c) = SpecC12.hb_batch (hb_of c) po.
+Proof.
+  destruct po as [|x po]; [reflexivity|]. unfold hb_of, book_batch, SpecC12.hb_batch. cbn [c_obs c_sum SpecC12.hb_count SpecC12.hb_sum SpecC12.hb_vals].
+  f_equal. rewrite app_length. lia.
+Qed.
+Lemma hb_of_val f c : hb_of (book_val f c) = hb_of c.
+Proof. reflexivity. Qed.
+Lemma hc_observe_labels h v : hc_labels (hc_observe h v) = hc_labels h.
+Proof. destruct h as [d ls bnds [|] tot s0 s1]; reflexivity. Qed.
+Lemma hc_flush_labels h l : hc_labels (hc_flush h l) = hc_labels h.
+Proof. unfold hc_flush. destruct (lh_count l =? 0); [reflexivity|]. destruct h as [d ls bnds [|] tot s0 s1]; reflexivity. Qed.
+Lemma hist_metric_shape h m h' : hist_metric h = Some (m, h') ->
+  hc_labels h' = hc_labels h /\ exists p, m = mkMetric (hc_labels h) None None None None (Some p) None.
+Proof.
+  unfold hist_metric. destruct (hc_proto h) as [[p h'']|] eqn:E; [|discriminate]. intros H0. inversion H0; subst. split; [|eauto].
+  unfold hc_proto in E. destruct (negb (sh_count (hc_shard h (hc_hot h)) =? hc_total h)); [discriminate|].
+  inversion E. destruct h as [d ls bnds [|] tot s0 s1]; reflexivity.
+Qed.
+Lemma list_set_app_mid {A} (pre : list A) x y post : list_set (pre ++ x :: post) (length pre) y = pre ++ y :: post.
+Proof. induction pre as [|a pre IH]; cbn; [reflexivity|]. rewrite IH. reflexivity. Qed.
+Lemma nth_error_app_mid {A} (pre : list A) x post : nth_error (pre ++ x :: post) (length pre) = Some x.
+Proof. induction pre as [|a pre IH]; cbn; auto. Qed.
+Lemma Forall2_list_set_r {A B} (P : A -> B -> Prop) l1 l2 i y : Forall2 P l1 l2 ->
+  (forall a, nth_error l1 i = Some a -> P a y) -> Forall2 P l1 (list_set l2 i y).
+Proof.
+  intros H; revert i; induction H as [|a b l1 l2 Hab H IH]; intros i Hy; [destruct i; constructor|].
+  destruct i as [|i]; cbn [list_set]; constructor; auto.
+Qed.
 
 Section SimHist.
   Variable T : list (list str).
@@ -840,60 +925,91 @@ Section SimHist.
 
   (* a ledger entry and the histogram core of the same index *)
   Definition crelh (c : child) (x : hcore) : Prop :=
-    hc_labels x = child_labels desc (c_tuple c) /\ c_vec c = O /\ In (c_tuple c) T
-    /\ HInv bs x (map HObserve (c_obs c)).
+    hc_labels x = child_labels desc (c_tuple c) /\ c_vec c = O /\ In (c_tuple c) T /\ hc_bounds x = bs
+    /\ C12Spec.hrel (hb_of c) x.
+  (* a local histogram vector's cache: the buffered observations on one side, the local histogram they built on the other *)
+  Definition ereh (n : nat) (e : centry) (we : N * (nat * lhist)) : Prop :=
+    let '(t, k, c, p, po) := e in we = (hk t, (c, local_of bs po)) /\ In t T /\ (c < n)%nat.
+  Definition creh (n : nat) (cache : list centry) (wc : list (N * (nat * lhist))) : Prop :=
+    Forall2 (ereh n) cache wc /\ NoDup (map fst wc).
   Inductive srelh (n : nat) : sent -> handle -> Prop :=
   | SH_none : srelh n SNone HDead
   | SH_vec : srelh n (SVec O) (HVec O)
-  | SH_child i : (i < n)%nat -> srelh n (SChild i) (HHist i).
+  | SH_child i : (i < n)%nat -> srelh n (SChild i) (HHist i)
+  | SH_local cache wc : creh n cache wc -> srelh n (SLocal O cache) (HLocalHistVec O wc).
+  Lemma ereh_mono n n' e we : (n <= n')%nat -> ereh n e we -> ereh n' e we.
+  Proof. intros L. destruct e as [[[[t k] c] p] po]. intros (A & B & C). repeat split; auto. lia. Qed.
   Lemma srelh_mono n n' e h : (n <= n')%nat -> srelh n e h -> srelh n' e h.
-  Proof. intros L H. destruct H; constructor; auto. lia. Qed.
+  Proof.
+    intros L H. destruct H; constructor; auto; try lia. destruct H as [H1 H2]. split; auto.
+    eapply Forall2_impl; [|exact H1]. intros a b. apply ereh_mono. exact L.
+  Qed.
 
-  (* [rem]: operations still to come; no child can have 2^64 observations *)
-  Record Rh (rem : nat) (s : st) (w : world) : Prop := mkRh {
+  Record Rh (s : st) (w : world) : Prop := mkRh {
     Rh_vecs : s_vecs s = [info];
     Rh_vec : exists vc, w_vec w = [vc] /\ v_desc vc = desc /\ v_kind vc = VKHist bs0 /\ coherent vc
                         /\ v_children vc = live_entries (s_kids s) O;
     Rh_nodup : NoDup (map fst (live_entries (s_kids s) O));
     Rh_kids : Forall2 crelh (s_kids s) (w_h w);
     Rh_slots : Forall2 (srelh (length (s_kids s))) (s_slots s) (w_slots w);
-    Rh_slot0 : nth_error (s_slots s) O = Some (SVec O);
-    Rh_bound : Forall (fun c => N.of_nat (length (c_obs c) + rem) < two64) (s_kids s);
-    Rh_rem : N.of_nat rem < two64 }.
+    Rh_slot0 : nth_error (s_slots s) O = Some (SVec O) }.
 
-  Lemma Rh_weaken rem s w : Rh (S rem) s w -> Rh rem s w.
-  Proof.
-    intros [A B C D E F G H]. constructor; auto; [|lia].
-    eapply Forall_impl; [|exact G]. cbn beta. intros c Hc. lia.
-  Qed.
-  Lemma ent_srelh rem s w sl : Rh rem s w -> srelh (length (s_kids s)) (ent s sl) (slot w sl).
+  Lemma ent_srelh s w sl : Rh s w -> srelh (length (s_kids s)) (ent s sl) (slot w sl).
   Proof.
     intros H. unfold ent, slot. destruct (nth_error (s_slots s) sl) as [e|] eqn:E.
-    - destruct (Forall2_nth_error_l _ _ _ _ _ (Rh_slots _ _ _ H) E) as (h & Eh & Hr).
+    - destruct (Forall2_nth_error_l _ _ _ _ _ (Rh_slots _ _ H) E) as (h & Eh & Hr).
       rewrite (nth_error_nth _ _ _ E), (nth_error_nth _ _ _ Eh). exact Hr.
-    - pose proof (Forall2_nth_error_none _ _ _ _ (Rh_slots _ _ _ H) E) as Eh.
+    - pose proof (Forall2_nth_error_none _ _ _ _ (Rh_slots _ _ H) E) as Eh.
       rewrite (nth_overflow _ _ (proj1 (nth_error_None _ _) E)), (nth_overflow _ _ (proj1 (nth_error_None _ _) Eh)). constructor.
   Qed.
-  Lemma Rh_raise rem s w b : Rh rem s w -> Rh rem (raise s b) w.
-  Proof. intros [A B C D E F G H]. constructor; auto. Qed.
-  Lemma Rh_push rem s w e h : Rh rem s w -> srelh (length (s_kids s)) e h -> Rh rem (push s e) (push_slot w h).
+  Lemma Rh_raise s w b : Rh s w -> Rh (raise s b) w.
+  Proof. intros [A B C D E F]. constructor; auto. Qed.
+  Lemma Rh_push s w e h : Rh s w -> srelh (length (s_kids s)) e h -> Rh (push s e) (push_slot w h).
   Proof.
-    intros [A B C D E F G H] Hr. constructor; cbn [push push_slot set_slots s_vecs s_kids s_slots w_vec w_h w_slots]; auto.
+    intros [A B C D E F] Hr. constructor; cbn [push push_slot set_slots s_vecs s_kids s_slots w_vec w_h w_slots]; auto.
     - apply Forall2_snoc; auto.
     - destruct (s_slots s); [discriminate|exact F].
+  Qed.
+  Lemma Rh_set_slot s w sl cache e h : Rh s w -> ent s sl = SLocal O cache -> srelh (length (s_kids s)) e h ->
+    Rh (set_slot s sl e) (put_slot w sl h).
+  Proof.
+    intros [A B C D E F] Hs Hr. constructor; cbn [set_slot put_slot set_slots s_vecs s_kids s_slots w_vec w_h w_slots]; auto.
+    - apply Forall2_list_set; auto.
+    - destruct sl as [|sl]; [|destruct (s_slots s); [discriminate|exact F]].
+      unfold ent in Hs. rewrite (nth_error_nth _ _ _ F) in Hs. discriminate.
+  Qed.
+
+  Lemma Rh_drop_slot s w sl e h : Rh s w -> sl <> O -> srelh (length (s_kids s)) e h -> Rh (set_slot s sl e) (put_slot w sl h).
+  Proof.
+    intros [A B C D E F] Hs Hr. constructor; cbn [set_slot put_slot set_slots s_vecs s_kids s_slots w_vec w_h w_slots]; auto.
+    - apply Forall2_list_set; auto.
+    - destruct sl as [|sl]; [congruence|]. destruct (s_slots s); [discriminate|exact F].
+  Qed.
+  Lemma Rh_drop_none s w sl : Rh s w -> ent s sl = SNone -> Rh (set_slot s sl SNone) w.
+  Proof.
+    intros [A B C D E F] Hs. unfold ent in Hs.
+    constructor; cbn [set_slot s_vecs s_kids s_slots]; auto; rewrite <- Hs, list_set_nth_same; auto.
   Qed.
 
   Lemma kids_in_T kids cells : Forall2 crelh kids cells -> Forall (fun c => c_vec c = O /\ In (c_tuple c) T) kids.
   Proof. induction 1 as [|c x l1 l2 H]; constructor; auto. destruct H as (_ & ? & ? & _). auto. Qed.
 
-  Lemma request_sim_h rem s w t : Rh rem s w -> In t T -> length t = length (vi_names info) ->
+  Lemma fresh_rel t : In t T ->
+    crelh (mkChild O t 0 true (kind_zero (vi_kind info)) [] f_zero) (fresh_hcore desc (child_labels desc t) bs).
+  Proof.
+    intros Ht. unfold crelh. cbn [c_tuple c_vec hc_labels hc_bounds fresh_hcore]. repeat split; auto.
+    exists []. cbn [hc_bounds]. split; [apply inv_fresh; unfold fresh_core; cbn; auto|]. split; [exact Hchain|].
+    repeat split.
+  Qed.
+
+  Lemma request_sim_h s w t : Rh s w -> In t T -> length t = length (vi_names info) ->
     exists i w', vec_get_or_create w O (hk t) t = Ok (w', HHist i)
       /\ snd (request same0 s O info (keyed key0 t)) = i
-      /\ Rh rem (fst (request same0 s O info (keyed key0 t))) w'
+      /\ Rh (fst (request same0 s O info (keyed key0 t))) w'
       /\ s_slots (fst (request same0 s O info (keyed key0 t))) = s_slots s /\ w_slots w' = w_slots w
       /\ (i < length (s_kids (fst (request same0 s O info (keyed key0 t)))))%nat.
   Proof.
-    intros HR Ht Hl. unfold keyed, key0. destruct HR as [A (vc & Ev & Ed & Ek & Co & Ech) Nd Kd Sl S0 Bd Br].
+    intros HR Ht Hl. unfold keyed, key0. destruct HR as [A (vc & Ev & Ed & Ek & Co & Ech) Nd Kd Sl S0].
     pose proof (kids_in_T _ _ Kd) as F.
     pose proof (find_live_nlookup T Hinj t Ht (s_kids s) O F) as FL.
     unfold request. unfold vec_get_or_create. rewrite Ev. cbn [nth_error]. rewrite Ech.
@@ -915,31 +1031,28 @@ Section SimHist.
         - rewrite live_entries_app, map_app. cbn [live_entries c_live c_tuple map fst]. apply NoDup_app_intro; auto.
           + constructor; [intros []|constructor].
           + intros x [<-|[]]. apply nlookup_None. exact FL.
-        - apply Forall2_snoc; auto. unfold crelh. cbn [c_tuple c_vec c_obs map fresh_hcore hc_labels]. rewrite Ed.
-          split; [reflexivity|]. split; [reflexivity|]. split; [exact Ht|]. apply inv_fresh.
-          unfold fresh_core, fresh_hcore. cbn. auto.
-        - rewrite app_length. eapply Forall2_impl; [|exact Sl]. intros e h. apply srelh_mono. lia.
-        - apply Forall_app. split; [exact Bd|]. constructor; [|constructor]. cbn [c_obs length]. exact Br. }
+        - apply Forall2_snoc; auto. rewrite Ed. apply fresh_rel. exact Ht.
+        - rewrite app_length. eapply Forall2_impl; [|exact Sl]. intros e h. apply srelh_mono. lia. }
       split; [reflexivity|]. split; [reflexivity|]. cbn [set_kids s_kids]. rewrite app_length.
-      pose proof (Forall2_length _ _ _ Kd). cbn. lia.
+      pose proof (Forall2_length _ _ _ Kd). cbn; lia.
   Qed.
 
-  Lemma unexport_sim_h rem s w t : Rh rem s w -> In t T ->
+  Lemma unexport_sim_h s w t : Rh s w -> In t T ->
     match unexport same0 s O (keyed key0 t) with
-    | Some s' => exists w', vec_delete w O (hk t) = Ok w' /\ Rh rem s' w'
+    | Some s' => exists w', vec_delete w O (hk t) = Ok w' /\ Rh s' w'
     | None => exists e, vec_delete w O (hk t) = Err e
     end.
   Proof.
-    intros HR Ht. unfold keyed, key0. destruct HR as [A (vc & Ev & Ed & Ek & Co & Ech) Nd Kd Sl S0 Bd Br].
+    intros HR Ht. unfold keyed, key0. destruct HR as [A (vc & Ev & Ed & Ek & Co & Ech) Nd Kd Sl S0].
     pose proof (kids_in_T _ _ Kd) as F.
     pose proof (find_live_nlookup T Hinj t Ht (s_kids s) O F) as FL.
     unfold unexport, vec_delete. rewrite Ev. cbn [nth_error]. rewrite Ech.
     destruct (find_live same0 O (t, 0) (s_kids s) O) as [[i c]|].
     - destruct FL as (Hl1 & _ & Hn & Hc & Hlive). rewrite Hl1. rewrite Nat.sub_0_r in Hn.
-      eexists. split; [reflexivity|]. apply Rh_raise.
+      eexists. split; [reflexivity|].
       assert (Ekill : live_entries (upd_nth (s_kids s) i kill) O = nremove (hk t) (live_entries (s_kids s) O)).
       { rewrite <- Hc. apply live_entries_kill; auto. }
-      constructor; cbn [set_kids set_vec s_vecs s_kids s_slots w_vec w_h w_slots]; auto.
+      apply Rh_raise. constructor; cbn [set_kids set_vec s_vecs s_kids s_slots w_vec w_h w_slots]; auto.
       + cbn [list_set]. eexists. split; [reflexivity|]. cbn [vec_set_children v_desc v_kind v_children].
         split; [exact Ed|]. split; [exact Ek|]. split; [exact Co|]. symmetry. exact Ekill.
       + change (NoDup (map fst (live_entries (upd_nth (s_kids s) i kill) O))). rewrite Ekill. apply nremove_nodup. exact Nd.
@@ -949,64 +1062,170 @@ Section SimHist.
           clear - E. revert i E; induction (w_h w) as [|y l IH]; intros [|i] E; cbn in *; try discriminate; [inversion E; auto|].
           f_equal. apply IH; auto.
       + change (Forall2 (srelh (length (upd_nth (s_kids s) i kill))) (s_slots s) (w_slots w)). rewrite upd_nth_length. exact Sl.
-      + change (Forall (fun c0 => N.of_nat (length (c_obs c0) + rem) < two64) (upd_nth (s_kids s) i kill)).
-        clear - Bd. revert i; induction Bd as [|c0 l H0 Bd IH]; intros [|i]; cbn [upd_nth]; constructor; auto.
     - rewrite FL. eexists. reflexivity.
   Qed.
 
-  (* ---- observing through a handle ---- *)
-  Lemma hc_observe_labels h v : hc_labels (hc_observe h v) = hc_labels h.
-  Proof. destruct h as [d ls bnds [|] tot s0 s1]; reflexivity. Qed.
-  Lemma Forall_upd_nth {A} (P Q : A -> Prop) l i g : Forall P l -> (forall a, P a -> Q (g a)) -> (forall a, P a -> Q a) ->
-    Forall Q (upd_nth l i g).
-  Proof. intros H Hg Hw. revert i; induction H as [|a l Ha H IH]; intros [|i]; cbn [upd_nth]; constructor; auto. eapply Forall_impl; eauto. Qed.
-
-  Lemma observe_sim rem s w c x : Rh (S rem) s w ->
-    Rh rem (on_child s c (book_obs [x])) (set_h w (upd (w_h w) c (fun h => hc_observe h x))).
+  (* ---- updating one ledger entry / histogram core ---- *)
+  Lemma Rh_cell s w c g g' : Rh s w ->
+    (forall a b, nth_error (s_kids s) c = Some a -> crelh a b -> crelh (g a) (g' b)) ->
+    (forall a, c_live (g a) = c_live a /\ c_tuple (g a) = c_tuple a) ->
+    Rh (on_child s c g) (set_h w (upd (w_h w) c g')).
   Proof.
-    intros [A B C D E F G H]. unfold on_child.
-    assert (Hg : forall a, c_live (book_obs [x] a) = c_live a /\ c_tuple (book_obs [x] a) = c_tuple a) by (intros a; split; reflexivity).
+    intros [A B C D E F] Hc Hg. unfold on_child.
     constructor; cbn [set_kids set_h s_vecs s_kids s_slots w_vec w_h w_slots]; auto.
     - rewrite live_entries_upd; auto.
     - rewrite live_entries_upd; auto.
-    - apply Forall2_upd; [exact D|]. intros a b Ea _ (Hl & Hv & Hin & Hinv).
-      assert (Hb : N.of_nat (length (c_obs a) + S rem) < two64).
-      { rewrite Forall_forall in G. apply G. eapply nth_error_In; eauto. }
-      unfold crelh. cbn [book_obs c_tuple c_vec c_obs]. rewrite hc_observe_labels.
-      split; [exact Hl|]. split; [exact Hv|]. split; [exact Hin|].
-      rewrite map_app. cbn [map]. apply (inv_step bs b (map HObserve (c_obs a)) (HObserve x) Hinv Hchain).
-      rewrite hist_values_snoc, hist_values_obs, app_length. cbn [hop_values length]. lia.
+    - apply Forall2_upd; [exact D|]. intros a b Ea _. apply Hc. exact Ea.
     - rewrite upd_nth_length. exact E.
-    - eapply Forall_upd_nth; [exact G| |]; cbn beta; intros a Ha; cbn [book_obs c_obs]; rewrite ?app_length; cbn [length]; lia.
-    - lia.
+  Qed.
+
+  Lemma observe_rel a b x : crelh a b -> N.of_nat (length (c_obs a ++ [x])) < two64 -> crelh (book_observe x a) (hc_observe b x).
+  Proof.
+    intros (Hl & Hv & Hin & Hb & Hr) Hs. unfold crelh. rewrite hc_observe_labels, C12More.hc_observe_bounds, hb_of_observe.
+    split; [exact Hl|]. split; [exact Hv|]. split; [exact Hin|]. split; [exact Hb|].
+    apply C12Spec.hrel_observe; auto.
+  Qed.
+  Lemma batch_rel a b f po : crelh a b -> N.of_nat (length (c_obs a ++ po)) < two64 ->
+    crelh (book_batch po (book_val f a)) (hc_flush b (local_of bs po)).
+  Proof.
+    intros (Hl & Hv & Hin & Hb & Hr) Hs. unfold crelh. rewrite hc_flush_labels, C12More.hc_flush_bounds, hb_of_batch, hb_of_val.
+    assert (Et : c_tuple (book_batch po (book_val f a)) = c_tuple a) by (destruct po; reflexivity).
+    assert (Ev : c_vec (book_batch po (book_val f a)) = c_vec a) by (destruct po; reflexivity).
+    rewrite Et, Ev. split; [exact Hl|]. split; [exact Hv|]. split; [exact Hin|]. split; [exact Hb|].
+    rewrite <- Hb. apply C12Spec.hrel_batch; auto.
+  Qed.
+
+  (* flushing one cache entry *)
+  Definition fl_fun (p : numval) (po : list f64) (k : child) : child :=
+    book_batch po (book_val (fun v => if num_is_zero p then v else num_add v p) k).
+  Lemma fl_fun_keeps p po a : c_live (fl_fun p po a) = c_live a /\ c_tuple (fl_fun p po a) = c_tuple a.
+  Proof. unfold fl_fun. destruct po; split; reflexivity. Qed.
+  Lemma fl_fun_obs p po a : c_obs (fl_fun p po a) = c_obs a ++ po.
+  Proof. unfold fl_fun. destruct po; cbn; [rewrite app_nil_r|]; reflexivity. Qed.
+  Lemma flush_entry_sim s w t k c p po : Rh s w ->
+    (forall a, nth_error (s_kids s) c = Some a -> N.of_nat (length (c_obs a ++ po)) < two64) ->
+    Rh (flush_entry s (t, k, c, p, po)) (flush_lh w c (local_of bs po)).
+  Proof.
+    intros HR Hs. cbn [flush_entry]. change (fun k0 : child => book_batch po (book_val (fun v => if num_is_zero p then v else num_add v p) k0)) with (fl_fun p po).
+    unfold flush_lh. apply Rh_cell; [exact HR| |apply fl_fun_keeps].
+    intros a b Ea Hab. unfold fl_fun. apply batch_rel; [exact Hab|]. apply Hs. exact Ea.
+  Qed.
+  Lemma nth_error_upd_nth_eq {A} (l : list A) i g a : nth_error l i = Some a -> nth_error (upd_nth l i g) i = Some (g a).
+  Proof. revert i; induction l as [|y l IH]; intros [|i] E; cbn in *; try discriminate; [inversion E; reflexivity|auto]. Qed.
+  Lemma flush_entry_grows s e i a : nth_error (s_kids s) i = Some a ->
+    exists a', nth_error (s_kids (flush_entry s e)) i = Some a' /\ (length (c_obs a) <= length (c_obs a'))%nat.
+  Proof.
+    destruct e as [[[[t k] c] p] po]. cbn [flush_entry on_child set_kids s_kids].
+    change (fun k0 : child => book_batch po (book_val (fun v => if num_is_zero p then v else num_add v p) k0)) with (fl_fun p po).
+    revert i c; induction (s_kids s) as [|y l IH]; intros [|i] [|c] E; cbn in *; try discriminate.
+    - inversion E; subst. eexists; split; [reflexivity|]. rewrite fl_fun_obs, app_length. lia.
+    - inversion E; subst. eexists; split; [reflexivity|]. lia.
+    - eexists; split; [exact E|]. lia.
+    - apply IH. exact E.
+  Qed.
+  Lemma flush_all_grows cache : forall s i a, nth_error (s_kids s) i = Some a ->
+    exists a', nth_error (s_kids (flush_all s cache)) i = Some a' /\ (length (c_obs a) <= length (c_obs a'))%nat.
+  Proof.
+    induction cache as [|e cache IH]; intros s i a E; cbn [flush_all fold_left]; [eauto|].
+    destruct (flush_entry_grows s e i a E) as (a1 & E1 & L1).
+    destruct (IH (flush_entry s e) i a1 E1) as (a2 & E2 & L2). exists a2. split; [exact E2|lia].
+  Qed.
+  Lemma flush_all_slots cache : forall s, s_slots (flush_all s cache) = s_slots s /\ length (s_kids (flush_all s cache)) = length (s_kids s).
+  Proof.
+    induction cache as [|[[[[t k] c] p] po] cache IH]; intros s; cbn [flush_all fold_left]; [auto|].
+    destruct (IH (flush_entry s (t, k, c, p, po))) as [A B]. unfold flush_all in *. rewrite A, B.
+    cbn [flush_entry on_child set_kids s_slots s_kids]. rewrite upd_nth_length. auto.
+  Qed.
+  Lemma flush_sim_h n cache wc : Forall2 (ereh n) cache wc -> forall s w, Rh s w -> kids_small (flush_all s cache) = true ->
+    Rh (flush_all s cache) (fold_left (fun w0 (e : N * (nat * lhist)) => let '(_, (c, l)) := e in flush_lh w0 c l) wc w).
+  Proof.
+    induction 1 as [|[[[[t k] c] p] po] we cache wc (-> & Ht' & Hc') H IH]; intros s w HR Hs; cbn [flush_all fold_left] in *; [exact HR|].
+    apply IH; [|exact Hs]. apply flush_entry_sim; [exact HR|]. intros a Ea.
+    pose proof (nth_error_upd_nth_eq _ _ (fl_fun p po) _ Ea) as E1.
+    destruct (flush_all_grows cache (flush_entry s (t, k, c, p, po)) c (fl_fun p po a) E1) as (a' & E2 & L).
+    pose proof (kids_small_nth _ _ _ Hs E2) as Hb. rewrite fl_fun_obs in L. pose proof two63_lt_two64. lia.
+  Qed.
+
+  (* ---- the local caches ---- *)
+  Lemma cache_find_nlookup_h n cache wc t : Forall2 (ereh n) cache wc -> In t T ->
+    match cache_find same0 (keyed key0 t) cache with
+    | Some (t', k', c, p, po) => t' = t /\ nlookup (hk t) wc = Some (c, local_of bs po) /\ (c < n)%nat
+    | None => nlookup (hk t) wc = None
+    end.
+  Proof.
+    intros H Ht. unfold keyed, key0. induction H as [|[[[[t' k'] c] p] po] we cache wc (-> & Ht' & Hc) H IH]; cbn [cache_find nlookup]; [reflexivity|].
+    unfold same0 at 1. cbn [fst]. destruct (tuple_eqb t' t) eqn:E.
+    - apply tuple_eqb_eq in E. subst t'. rewrite N.eqb_refl. auto.
+    - destruct (N.eqb_spec (hk t) (hk t')) as [Eh|Eh]; [|exact IH].
+      apply Hinj in Eh; auto. subst t'. rewrite tuple_eqb_refl in E. discriminate.
+  Qed.
+  Lemma map_keys_same_h (h : N) (x : nat * lhist) (wc : list (N * (nat * lhist))) :
+    map fst (map (fun e => if fst e =? h then (h, x) else e) wc) = map fst wc.
+  Proof.
+    induction wc as [|[k y] wc IH]; cbn [map fst]; [reflexivity|]. rewrite IH. f_equal.
+    destruct (N.eqb_spec k h) as [->|]; reflexivity.
+  Qed.
+  Lemma map_notin_id_h (h : N) (x : nat * lhist) (wc : list (N * (nat * lhist))) : ~ In h (map fst wc) ->
+    map (fun e => if fst e =? h then (h, x) else e) wc = wc.
+  Proof.
+    induction wc as [|[k y] wc IH]; cbn [map fst In]; [reflexivity|]. intros H.
+    destruct (N.eqb_spec k h) as [->|]; [exfalso; auto|]. rewrite IH; auto.
+  Qed.
+  Lemma cache_update_rel_h n cache wc t c po x : creh n cache wc -> In t T -> nlookup (hk t) wc = Some (c, local_of bs po) ->
+    (forall t' k' c' p' po', cache_find same0 (keyed key0 t) cache = Some (t', k', c', p', po') -> po' = po) ->
+    creh n (cache_update same0 (keyed key0 t) (fun e : centry => let '(t0, k, c0, p, po0) := e in (t0, k, c0, p, po0 ++ [x])) cache)
+         (map (fun e => if fst e =? hk t then (hk t, (c, lh_observe bs (local_of bs po) x)) else e) wc).
+  Proof.
+    intros [H Nd] Ht Hl Hpo. split; [|rewrite map_keys_same_h; exact Nd]. unfold keyed, key0 in *.
+    induction H as [|[[[[t' k'] c'] p] po1] we cache wc (-> & Ht' & Hc') H IH]; cbn [cache_update map]; [constructor|].
+    cbn [cache_find] in Hpo. unfold same0 at 1 in Hpo. unfold same0 at 1. cbn [fst] in *. cbn [nlookup] in Hl. cbn [map fst] in Nd. inversion Nd; subst.
+    destruct (tuple_eqb t' t) eqn:E.
+    - apply tuple_eqb_eq in E. subst t'. rewrite N.eqb_refl in *. inversion Hl; subst.
+      rewrite (Hpo _ _ _ _ _ eq_refl). rewrite map_notin_id_h; auto.
+      constructor; auto. split; [|auto]. rewrite C12Spec.local_snoc. reflexivity.
+    - destruct (N.eqb_spec (hk t) (hk t')) as [Eh|Eh].
+      + apply Hinj in Eh; auto. subst t'. rewrite tuple_eqb_refl in E. discriminate.
+      + destruct (N.eqb_spec (hk t') (hk t)); [congruence|]. constructor; [repeat split; auto|]. apply IH; auto.
+  Qed.
+  Lemma cache_remove_rel_h n cache wc t : creh n cache wc -> In t T ->
+    creh n (cache_remove same0 (keyed key0 t) cache) (nremove (hk t) wc).
+  Proof.
+    intros [H Nd] Ht. split; [|apply nremove_nodup; exact Nd]. clear Nd. unfold keyed, key0.
+    induction H as [|[[[[t' k'] c'] p] po] we cache wc (-> & Ht' & Hc') H IH]; cbn [cache_remove nremove]; [constructor|].
+    unfold same0 at 1. cbn [fst]. destruct (tuple_eqb t' t) eqn:E.
+    - apply tuple_eqb_eq in E. subst t'. rewrite N.eqb_refl. exact IH.
+    - destruct (N.eqb_spec (hk t) (hk t')) as [Eh|Eh].
+      + apply Hinj in Eh; auto. subst t'. rewrite tuple_eqb_refl in E. discriminate.
+      + constructor; [repeat split; auto|exact IH].
+  Qed.
+  Lemma cleared_rel_h n cache wc : creh n cache wc ->
+    creh n (cleared cache) (map (fun e : N * (nat * lhist) => let '(h, (c, l)) := e in (h, (c, lh_clear l))) wc).
+  Proof.
+    intros [H Nd]. split.
+    - clear Nd. induction H as [|[[[[t' k'] c'] p] po] we cache wc (-> & Ht' & Hc') H IH]; cbn [cleared map]; constructor; auto.
+      repeat split; auto. rewrite local_clear. reflexivity.
+    - replace (map fst (map (fun e : N * (nat * lhist) => let '(h, (c, l)) := e in (h, (c, lh_clear l))) wc)) with (map fst wc); auto.
+      clear. induction wc as [|[h [c v]] wc IH]; cbn; auto. f_equal. exact IH.
+  Qed.
+  Lemma bounds_of_kid s w c : Rh s w -> (c < length (s_kids s))%nat -> bounds_of w c = bs.
+  Proof.
+    intros HR Hc. destruct (nth_error (s_kids s) c) as [a|] eqn:Ea; [|apply nth_error_None in Ea; lia].
+    destruct (Forall2_nth_error_l _ _ _ _ _ (Rh_kids _ _ HR) Ea) as (x & Ex & (_ & _ & _ & Hb & _)).
+    unfold bounds_of. rewrite Ex. exact Hb.
   Qed.
 
   (* ---- collecting ---- *)
-  Lemma list_set_app_mid {A} (pre : list A) x y post : list_set (pre ++ x :: post) (length pre) y = pre ++ y :: post.
-  Proof. induction pre as [|a pre IH]; cbn; [reflexivity|]. rewrite IH. reflexivity. Qed.
-  Lemma nth_error_app_mid {A} (pre : list A) x post : nth_error (pre ++ x :: post) (length pre) = Some x.
-  Proof. induction pre as [|a pre IH]; cbn; auto. Qed.
-  Lemma buckets_shown obs l :
-    forallb (fun b => b_cum b =? SpecC05.count_le obs (b_upper b)) (map (fun b => mkBucket (HistFacts.count_le b obs) b) l) = true.
-  Proof.
-    induction l as [|b l IH]; cbn [map forallb]; [reflexivity|]. rewrite IH, andb_true_r. cbn [b_cum b_upper].
-    apply N.eqb_eq. reflexivity.
-  Qed.
   Lemma hist_metric_shown c x : crelh c x -> N.of_nat (length (c_obs c)) < two64 ->
     exists m x', hist_metric x = Some (m, x') /\ crelh c x' /\ metric_matches info c m = true.
   Proof.
-    intros (Hl & Hv & Hin & Hinv) Hb.
-    destruct (inv_collect bs x (map HObserve (c_obs c)) Hinv Hchain) as (x' & Hp & Hinv').
-    { rewrite hist_values_obs. exact Hb. }
-    unfold hist_metric. rewrite Hp. eexists _, x'. split; [reflexivity|]. split.
-    - unfold crelh. split; [|split; [exact Hv|split; [exact Hin|exact Hinv']]].
-      unfold hc_proto in Hp. destruct (negb (sh_count (hc_shard x (hc_hot x)) =? hc_total x)); [discriminate|].
-      inversion Hp. destruct x as [d ls bnds [|] tot s0 s1]; cbn in *; exact Hl.
+    intros (Hl & Hv & Hin & Hb & Hr) Hs.
+    destruct (C12Spec.hrel_collect (hb_of c) x Hr Hs) as (m & x' & Hm & Hr' & Hok & Hb').
+    destruct (hist_metric_shape _ _ _ Hm) as (Hl' & p & ->).
+    exists (mkMetric (hc_labels x) None None None None (Some p) None), x'. split; [exact Hm|]. split.
+    - unfold crelh. rewrite Hl', Hb'. auto.
     - unfold metric_matches. rewrite Hkind. cbn [m_label m_histogram m_counter m_gauge].
-      rewrite labels_eq_h, Hl, lps_eqb_refl. unfold spec_hist. cbn [h_count h_sum h_bucket].
-      rewrite hist_values_obs, spec_sum_obs, N.eqb_refl, f64_eqb_refl, buckets_shown. reflexivity.
+      rewrite labels_eq_h, Hl, lps_eqb_refl. exact Hok.
   Qed.
-
   Lemma collect_all_shown_h kids cells : Forall2 crelh kids cells ->
     Forall (fun c => N.of_nat (length (c_obs c)) < two64) kids -> forall pre w, w_h w = pre ++ cells ->
     exists ms w' cells', collect_children w (VKHist bs0) (live_entries kids (length pre)) = Some (ms, w')
@@ -1037,56 +1256,53 @@ Section SimHist.
 
   Ltac slotsh HR sl :=
     let H := fresh "Hsl" in
-    pose proof (ent_srelh _ _ _ sl HR) as H;
+    pose proof (ent_srelh _ _ sl HR) as H;
     remember (ent _ sl) as e eqn:Ee; remember (slot _ sl) as h eqn:Eh;
-    destruct H as [| |i Hi].
+    destruct H as [| |i Hi|cache wc Hc].
   Ltac rdh := cbn [snd fst is_unit is_ok is_err is_panic nth_error]; cbn beta iota zeta.
-  Ltac pushh HR := rdh; eexists; split; [reflexivity|]; apply Rh_push; [exact HR|constructor].
-  Ltac sameh HR := rdh; eexists; split; [reflexivity|]; exact HR.
+  Ltac pushh HR := rdh; eexists; split; [reflexivity|]; intros _; apply Rh_push; [exact HR|constructor].
+  Ltac sameh HR := rdh; eexists; split; [reflexivity|]; intros _; exact HR.
 
-  Lemma with_tuple_sim_h rem s w t : Rh rem s w -> In t T -> length t = length (vi_names info) ->
+  Lemma with_tuple_sim_h s w t : Rh s w -> In t T -> length t = length (vi_names info) ->
     exists s', (let '(s', c) := request same0 s O info (keyed key0 t) in Some (push s' (SChild c))) = Some s'
-      /\ exists w' i, vec_get_or_create w O (hk t) t = Ok (w', HHist i) /\ Rh rem s' (push_slot w' (HHist i)).
+      /\ exists w' i, vec_get_or_create w O (hk t) t = Ok (w', HHist i) /\ Rh s' (push_slot w' (HHist i)).
   Proof.
-    intros HR Ht El. destruct (request_sim_h rem s w t HR Ht El) as (i & w' & G & Ei & HR' & Es & Ew & Hi).
+    intros HR Ht El. destruct (request_sim_h s w t HR Ht El) as (i & w' & G & Ei & HR' & Es & Ew & Hi).
     destruct (request same0 s O info (keyed key0 t)) as [s' c] eqn:Er. cbn [fst snd] in *. subst c.
     eexists. split; [reflexivity|]. exists w', i. split; [exact G|]. apply Rh_push; auto. constructor; auto.
   Qed.
-  Lemma remove_sim_h rem s w t : Rh rem s w -> In t T ->
+  Lemma remove_sim_h s w t : Rh s w -> In t T ->
     let r := match vec_delete w O (hk t) with Ok w' => (w', ORes (Ok tt)) | Err e => (w, ORes (Err e)) end in
     exists s', match unexport same0 s O (keyed key0 t) with
                | Some s1 => if is_ok (snd r) then Some s1 else None
                | None => if is_err (snd r) then Some s else None
-               end = Some s' /\ Rh rem s' (fst r).
+               end = Some s' /\ Rh s' (fst r).
   Proof.
-    intros HR Ht. pose proof (unexport_sim_h rem s w t HR Ht) as U. cbn zeta.
+    intros HR Ht. pose proof (unexport_sim_h s w t HR Ht) as U. cbn zeta.
     destruct (unexport same0 s O (keyed key0 t)) as [s1|].
     - destruct U as (w' & -> & HR'). cbn. eauto.
     - destruct U as (e & ->). cbn. eauto.
   Qed.
   Lemma reset_kids_h kids cells : Forall2 crelh kids cells ->
-    let kids' := map (fun c => if Nat.eqb (c_vec c) O then mkChild (c_vec c) (c_tuple c) (c_key c) false (c_val c) (c_obs c) else c) kids in
-    Forall2 crelh kids' cells /\ (forall n, live_entries kids' n = []) /\ length kids' = length kids
-    /\ forall P : nat -> Prop, Forall (fun c => P (length (c_obs c))) kids -> Forall (fun c => P (length (c_obs c))) kids'.
+    let kids' := map (fun c => if Nat.eqb (c_vec c) O then mkChild (c_vec c) (c_tuple c) (c_key c) false (c_val c) (c_obs c) (c_sum c) else c) kids in
+    Forall2 crelh kids' cells /\ (forall n, live_entries kids' n = []) /\ length kids' = length kids.
   Proof.
     cbn zeta. induction 1 as [|c x kids cells Hc H IH]; cbn [map live_entries length].
     - repeat split; auto; constructor.
-    - destruct IH as (A & B & C & D). pose proof Hc as (Hl & Hvec & Hin & Hinv). rewrite Hvec. cbn [Nat.eqb c_live].
-      split; [constructor; [unfold crelh; cbn; auto|exact A]|]. split; [intros n; apply B|]. split; [rewrite C; reflexivity|].
-      intros P HP. inversion HP; subst. constructor; auto.
+    - destruct IH as (A & B & C). pose proof Hc as (Hl & Hvec & Hin & Hb & Hinv). rewrite Hvec. cbn [Nat.eqb c_live].
+      split; [constructor; [unfold crelh; cbn; auto|exact A]|]. split; [intros n; apply B|]. rewrite C; reflexivity.
   Qed.
-  Lemma Forall2_list_set_r {A B} (P : A -> B -> Prop) l1 l2 i y : Forall2 P l1 l2 ->
-    (forall a, nth_error l1 i = Some a -> P a y) -> Forall2 P l1 (list_set l2 i y).
+  Lemma cache_find_In t cache e : cache_find same0 t cache = Some e -> In e cache.
   Proof.
-    intros H; revert i; induction H as [|a b l1 l2 Hab H IH]; intros i Hy; [destruct i; constructor|].
-    destruct i as [|i]; cbn [list_set]; constructor; auto.
+    induction cache as [|[[[[t' k'] c] p] po] cache IH]; cbn [cache_find]; [discriminate|].
+    destruct (same0 (t', k') t); [intros H; inversion H; left; reflexivity|intros H; right; auto].
   Qed.
 
-  Lemma sim_step_h rem s w o : Rh (S rem) s w -> allowed_hist o = true -> tup_ok_h o ->
-    exists s', sstep key0 same0 s o (snd (step w o)) = Some s' /\ Rh rem s' (fst (step w o)).
+  Lemma sim_step_h s w o : Rh s w -> allowed_hist o = true -> tup_ok_h o -> st_small s = true ->
+    exists s', sstep key0 same0 s o (snd (step w o)) = Some s' /\ (st_small s' = true -> Rh s' (fst (step w o))).
   Proof.
-    intros HRS Ha Ht. pose proof (Rh_weaken _ _ _ HRS) as HR.
-    pose proof (Rh_vecs _ _ _ HR) as Evs. destruct (Rh_vec _ _ _ HR) as (vc & Ev & Ed & Ek & Co & Ech).
+    intros HR Ha Ht Hsm.
+    pose proof (Rh_vecs _ _ HR) as Evs. destruct (Rh_vec _ _ HR) as (vc & Ev & Ed & Ek & Co & Ech).
     assert (Evars : d_vars (v_desc vc) = vi_names info) by (rewrite Ed; exact Hnames).
     destruct o; try discriminate Ha; unfold sstep; cbn [step].
     - (* OpWith *)
@@ -1095,8 +1311,8 @@ Section SimHist.
       destruct (Nat.eqb (length vals) (length (vi_names info))) eqn:El.
       + apply Nat.eqb_eq in El. rewrite hash_label_values_ok by (rewrite Evars; exact El).
         change (fnv1a (label_values_preimage vals)) with (hk vals).
-        destruct (with_tuple_sim_h rem s w vals HR (Ht vals (or_introl eq_refl)) El) as (s' & Es' & w' & i & G & HR').
-        rewrite G. rdh. exists s'. split; [exact Es'|exact HR'].
+        destruct (with_tuple_sim_h s w vals HR (Ht vals (or_introl eq_refl)) El) as (s' & Es' & w' & i & G & HR').
+        rewrite G. rdh. exists s'. split; [exact Es'|intros _; exact HR'].
       + apply Nat.eqb_neq in El. rewrite hash_label_values_err by (rewrite Evars; exact El). pushh HR.
     - (* OpWithMap *)
       slotsh HR s0; try pushh HR.
@@ -1107,15 +1323,15 @@ Section SimHist.
       destruct (hash_labels (v_desc vc) (amap_of kvs)) as [[h' vs]|e'] eqn:Ehl; [|pushh HR].
       apply hash_labels_ok_inv in Ehl as (_ & _ & _ & Ehl). apply hash_label_values_inv in Ehl as [El ->].
       change (fnv1a (label_values_preimage vs)) with (hk vs). rewrite Evars in El.
-      destruct (with_tuple_sim_h rem s w vs HR (Ht' vs eq_refl) El) as (s' & Es' & w' & i & G & HR').
-      rewrite G. rdh. exists s'. split; [exact Es'|exact HR'].
+      destruct (with_tuple_sim_h s w vs HR (Ht' vs eq_refl) El) as (s' & Es' & w' & i & G & HR').
+      rewrite G. rdh. exists s'. split; [exact Es'|intros _; exact HR'].
     - (* OpRemove *)
       slotsh HR s0; try sameh HR.
       rewrite Evs, Ev. rdh. unfold card_ok.
       destruct (Nat.eqb (length vals) (length (vi_names info))) eqn:El.
       + apply Nat.eqb_eq in El. rewrite hash_label_values_ok by (rewrite Evars; exact El).
         change (fnv1a (label_values_preimage vals)) with (hk vals).
-        exact (remove_sim_h rem s w vals HR (Ht vals (or_introl eq_refl))).
+        destruct (remove_sim_h s w vals HR (Ht vals (or_introl eq_refl))) as (s' & E' & HR'). exists s'. split; [exact E'|intros _; exact HR'].
       + apply Nat.eqb_neq in El. rewrite hash_label_values_err by (rewrite Evars; exact El). sameh HR.
     - (* OpRemoveMap *)
       slotsh HR s0; try sameh HR.
@@ -1126,79 +1342,172 @@ Section SimHist.
       destruct (hash_labels (v_desc vc) (amap_of kvs)) as [[h' vs]|e'] eqn:Ehl; [|sameh HR].
       apply hash_labels_ok_inv in Ehl as (_ & _ & _ & Ehl). apply hash_label_values_inv in Ehl as [El ->].
       change (fnv1a (label_values_preimage vs)) with (hk vs).
-      exact (remove_sim_h rem s w vs HR (Ht' vs eq_refl)).
+      destruct (remove_sim_h s w vs HR (Ht' vs eq_refl)) as (s' & E' & HR'). exists s'. split; [exact E'|intros _; exact HR'].
     - (* OpReset on the vector's own slot *)
       apply Nat.eqb_eq in Ha. subst s0.
-      assert (E0 : ent s O = SVec O) by (unfold ent; rewrite (nth_error_nth _ _ _ (Rh_slot0 _ _ _ HR)); reflexivity).
+      assert (E0 : ent s O = SVec O) by (unfold ent; rewrite (nth_error_nth _ _ _ (Rh_slot0 _ _ HR)); reflexivity).
       slotsh HR O; try discriminate E0.
-      rdh. eexists; split; [reflexivity|]. destruct (reset_kids_h _ _ (Rh_kids _ _ _ HR)) as (A & B & C & D).
-      destruct HR as [A1 _ C1 D1 E1 F1 G1 H1]. constructor; cbn [set_kids set_vec s_vecs s_kids s_slots w_vec w_h w_slots]; auto.
+      rdh. eexists; split; [reflexivity|]. intros _. destruct (reset_kids_h _ _ (Rh_kids _ _ HR)) as (A & B & C).
+      destruct HR as [A1 _ C1 D1 E1 F1]. constructor; cbn [set_kids set_vec s_vecs s_kids s_slots w_vec w_h w_slots]; auto.
       + rewrite Ev. unfold upd. cbn [nth_error list_set]. eexists. split; [reflexivity|].
         cbn [vec_set_children v_desc v_kind v_children]. rewrite B. auto.
       + rewrite B. constructor.
       + rewrite C. exact E1.
-      + apply (D (fun n => N.of_nat (n + rem) < two64)). exact G1.
     - (* OpObserve *)
       slotsh HR s0; try sameh HR.
-      rdh. eexists; split; [reflexivity|]. apply observe_sim. exact HRS.
+      rdh. eexists; split; [reflexivity|]. intros _.
+      apply Rh_cell; [exact HR| |intros a; split; reflexivity].
+      intros a b Ea Hab. apply observe_rel; [exact Hab|].
+      pose proof (st_small_nth _ _ _ Hsm Ea). rewrite app_length. cbn [length]. unfold two63, two64 in *. lia.
     - (* OpSampleSum *)
       slotsh HR s0; try sameh HR.
       destruct (nth_error (s_kids s) i) as [k|] eqn:Ek'; [|apply nth_error_None in Ek'; lia].
-      destruct (Forall2_nth_error_l _ _ _ _ _ (Rh_kids _ _ _ HR) Ek') as (x & Ex & (_ & _ & _ & Hinv)).
-      rewrite Ex. rdh. unfold hc_sample_sum. rewrite (inv_hot _ _ _ Hinv). cbn [sh_sum]. rewrite spec_sum_obs, f64_eqb_refl.
-      eexists; split; [reflexivity|exact HR].
+      destruct (Forall2_nth_error_l _ _ _ _ _ (Rh_kids _ _ HR) Ek') as (x & Ex & (_ & _ & _ & _ & Hr)).
+      rewrite Ex. rdh. destruct (C12Spec.hrel_reads _ _ Hr) as [_ ->]. cbn [hb_of SpecC12.hb_sum]. rewrite f64_eqb_refl.
+      eexists; split; [reflexivity|intros _; exact HR].
     - (* OpSampleCount *)
       slotsh HR s0; try sameh HR.
       destruct (nth_error (s_kids s) i) as [k|] eqn:Ek'; [|apply nth_error_None in Ek'; lia].
-      destruct (Forall2_nth_error_l _ _ _ _ _ (Rh_kids _ _ _ HR) Ek') as (x & Ex & (_ & _ & _ & Hinv)).
-      rewrite Ex. rdh. unfold hc_sample_count. rewrite (inv_total _ _ _ Hinv), hist_values_obs, N.eqb_refl.
-      eexists; split; [reflexivity|exact HR].
+      destruct (Forall2_nth_error_l _ _ _ _ _ (Rh_kids _ _ HR) Ek') as (x & Ex & (_ & _ & _ & _ & Hr)).
+      rewrite Ex. rdh. destruct (C12Spec.hrel_reads _ _ Hr) as [-> _]. cbn [hb_of SpecC12.hb_count]. rewrite N.eqb_refl.
+      eexists; split; [reflexivity|intros _; exact HR].
+    - (* OpLocal on the vector's own slot *)
+      apply Nat.eqb_eq in Ha. subst s0.
+      assert (E0 : ent s O = SVec O) by (unfold ent; rewrite (nth_error_nth _ _ _ (Rh_slot0 _ _ HR)); reflexivity).
+      slotsh HR O; try discriminate E0.
+      rewrite Ev. rdh. rewrite Ek. rdh. eexists; split; [reflexivity|]. intros _. apply Rh_push; [exact HR|]. constructor. split; constructor.
+    - (* OpFlush *)
+      slotsh HR s0; try sameh HR.
+      rdh. eexists; split; [reflexivity|]. intros Hs'.
+      destruct (flush_all_slots cache s) as [B D].
+      unfold st_small in Hs'. apply andb_true_iff in Hs' as [Hs' _].
+      eapply Rh_set_slot; [apply (flush_sim_h _ cache wc (proj1 Hc) s w HR); exact Hs'| |].
+      + unfold ent. rewrite B. symmetry. exact Ee.
+      + rewrite D. constructor. apply cleared_rel_h. exact Hc.
     - (* OpClone *)
-      slotsh HR s0; rdh; (eexists; split; [reflexivity|]); apply Rh_push; try exact HR; constructor; auto.
+      slotsh HR s0; rdh; (eexists; split; [reflexivity|]); intros _; apply Rh_push; try exact HR; constructor; auto. split; constructor.
+    - (* OpDrop of any handle but the vector's own: a local histogram vector flushes *)
+      apply negb_true_iff in Ha. apply Nat.eqb_neq in Ha.
+      slotsh HR s0.
+      + rdh. eexists; split; [reflexivity|]. intros _. apply Rh_drop_none; [exact HR|symmetry; exact Ee].
+      + rdh. eexists; split; [reflexivity|]. intros _. apply Rh_drop_slot; [exact HR|exact Ha|constructor].
+      + rdh. eexists; split; [reflexivity|]. intros _. apply Rh_drop_slot; [exact HR|exact Ha|constructor].
+      + rewrite Evs. rdh. rewrite Hkind. eexists; split; [reflexivity|]. intros Hs'.
+        unfold st_small in Hs'. apply andb_true_iff in Hs' as [Hs' _].
+        destruct (flush_all_slots cache s) as [B D].
+        apply Rh_drop_slot; [apply (flush_sim_h _ cache wc (proj1 Hc) s w HR); exact Hs'|exact Ha|constructor].
+    - (* OpLvObserve *)
+      slotsh HR s0; try sameh HR.
+      rewrite Evs, Ev. rdh. unfold card_ok.
+      destruct (Nat.eqb (length vals) (length (vi_names info))) eqn:El.
+      2:{ apply Nat.eqb_neq in El. rewrite hash_label_values_err by (rewrite Evars; exact El). sameh HR. }
+      apply Nat.eqb_eq in El. rewrite hash_label_values_ok by (rewrite Evars; exact El).
+      change (fnv1a (label_values_preimage vals)) with (hk vals).
+      assert (Hin : In vals T) by (apply Ht; left; reflexivity).
+      pose proof (cache_find_nlookup_h _ cache wc vals (proj1 Hc) Hin) as CF.
+      unfold local_update.
+      destruct (cache_find same0 (keyed key0 vals) cache) as [[[[[t' k'] c'] p] po]|] eqn:Ecf.
+      + destruct CF as (-> & CF & Hc'). rewrite CF. rdh. rewrite (bounds_of_kid s w c' HR Hc').
+        eexists; split; [reflexivity|]. intros _.
+        apply Rh_raise. eapply Rh_set_slot; [exact HR|symmetry; exact Ee|]. constructor.
+        apply cache_update_rel_h; auto. intros t1 k1 c1 p1 po1 E1. rewrite Ecf in E1. inversion E1; reflexivity.
+      + rewrite CF. destruct (request_sim_h s w vals HR Hin El) as (i & w' & G & Ei & HR' & Es & Ew & Hi').
+        rewrite G. rdh. destruct (request same0 s O info (keyed key0 vals)) as [s' c] eqn:Er. cbn [fst snd] in *. subst c.
+        rewrite (bounds_of_kid s' w' i HR' Hi').
+        eexists; split; [reflexivity|]. intros _.
+        eapply Rh_set_slot; [exact HR'|unfold ent; rewrite Es; symmetry; exact Ee|]. constructor.
+        destruct Hc as [Hc1 Hc2]. split.
+        * apply Forall2_snoc.
+          -- eapply Forall2_impl; [|exact Hc1]. intros a b. apply ereh_mono.
+             destruct (request_sim_h s w vals HR Hin El) as (_ & _ & _ & _ & _ & _ & _ & _). 
+             pose proof (Forall2_length _ _ _ (Rh_kids _ _ HR)). pose proof (Forall2_length _ _ _ (Rh_kids _ _ HR')).
+             unfold request in Er. destruct (find_live same0 O (keyed key0 vals) (s_kids s) O) as [[i0 c0]|]; inversion Er; subst; cbn [raise set_kids s_kids]; rewrite ?app_length; lia.
+          -- unfold keyed, key0. cbn [fst snd ereh app]. repeat split; auto.
+        * rewrite map_app. cbn [map fst]. apply NoDup_app_intro; auto.
+          -- constructor; [intros []|constructor].
+          -- intros x0 [<-|[]]. apply nlookup_None. exact CF.
+    - (* OpLvRemove *)
+      slotsh HR s0; try sameh HR.
+      rewrite Evs, Ev. rdh. unfold card_ok.
+      destruct (Nat.eqb (length vals) (length (vi_names info))) eqn:El.
+      2:{ apply Nat.eqb_neq in El. rewrite hash_label_values_err by (rewrite Evars; exact El). sameh HR. }
+      apply Nat.eqb_eq in El. rewrite hash_label_values_ok by (rewrite Evars; exact El).
+      change (fnv1a (label_values_preimage vals)) with (hk vals).
+      assert (Hin : In vals T) by (apply Ht; left; reflexivity).
+      pose proof (cache_find_nlookup_h _ cache wc vals (proj1 Hc) Hin) as CF.
+      rewrite Hkind.
+      set (fl := match cache_find same0 (keyed key0 vals) cache with
+                 | Some (t', _, _, _, _) => negb (tuple_eqb t' vals)
+                 | None => false
+                 end). clearbody fl.
+      assert (HR1 : exists s1 w0, s1 = match cache_find same0 (keyed key0 vals) cache with Some e0 => flush_entry s e0 | None => s end
+                     /\ w0 = match nlookup (hk vals) wc with Some (c, l) => flush_lh w c l | None => w end
+                     /\ Rh s1 w0 /\ s_slots s1 = s_slots s /\ length (s_kids s1) = length (s_kids s)).
+      { destruct (cache_find same0 (keyed key0 vals) cache) as [[[[[t' k'] c'] p] po]|] eqn:Ecf.
+        - destruct CF as (-> & CF & Hc'). rewrite CF. eexists _, _. split; [reflexivity|]. split; [reflexivity|]. split.
+          + apply flush_entry_sim; [exact HR|]. intros a Ea.
+            pose proof (st_small_nth _ _ _ Hsm Ea) as B1.
+            pose proof (st_small_entry _ _ _ _ _ Hsm (eq_sym Ee) (cache_find_In _ _ _ Ecf)) as B2.
+            cbn [entry_small] in B2. apply N.ltb_lt in B2. rewrite app_length, Nat2N.inj_add. apply two63_double; auto.
+          + cbn [flush_entry on_child set_kids s_slots s_kids]. rewrite upd_nth_length. auto.
+        - rewrite CF. eexists _, _. split; [reflexivity|]. split; [reflexivity|]. auto. }
+      destruct HR1 as (s1 & w0 & Es1 & Ew0 & HR1 & Sl1 & Ln1). rewrite <- Es1, <- Ew0.
+      assert (HR2 : Rh (raise (set_slot s1 s0 (SLocal O (cache_remove same0 (keyed key0 vals) cache))) fl)
+                      (put_slot w0 s0 (HLocalHistVec O (nremove (hk vals) wc)))).
+      { apply Rh_raise. eapply Rh_set_slot; [exact HR1|unfold ent; rewrite Sl1; symmetry; exact Ee|]. rewrite Ln1. constructor.
+        apply cache_remove_rel_h; auto. }
+      destruct (remove_sim_h _ _ vals HR2 Hin) as (s' & E' & HR'). exists s'. split; [exact E'|intros _; exact HR'].
     - (* OpCollect *)
       assert (Bd : Forall (fun c => N.of_nat (length (c_obs c)) < two64) (s_kids s)).
-      { eapply Forall_impl; [|exact (Rh_bound _ _ _ HR)]. cbn beta. intros c Hc. lia. }
+      { apply Forall_forall. intros c Hc0. apply In_nth_error in Hc0 as (i0 & Ei0). pose proof (st_small_nth _ _ _ Hsm Ei0).
+        pose proof two63_lt_two64. lia. }
       slotsh HR s0; try sameh HR.
       + (* the vector *)
         unfold collector_of. rewrite Evs, Ev. rdh. unfold collect_collector. rewrite Ev. rdh. rewrite Ek, Ech.
-        destruct (collect_all_shown_h _ _ (Rh_kids _ _ _ HR) Bd [] w eq_refl) as (ms & w' & cells' & Hcc & Hall & Ew' & Hk' & Ev' & Es').
+        destruct (collect_all_shown_h _ _ (Rh_kids _ _ HR) Bd [] w eq_refl) as (ms & w' & cells' & Hcc & Hall & Ew' & Hk' & Ev' & Es').
         cbn [length] in Hcc. rewrite Hcc. rdh. unfold collect_ok. cbn [mf_type mf_metric veckind_mtype]. rewrite Hkind, Hall.
-        cbn [kind_mtype mtype_eqb andb]. eexists; split; [reflexivity|].
-        destruct HR as [A1 B1 C1 D1 E1 F1 G1 H1]. constructor; auto.
+        cbn [kind_mtype mtype_eqb andb]. eexists; split; [reflexivity|]. intros _.
+        destruct HR as [A1 B1 C1 D1 E1 F1]. constructor; auto.
         * exists vc. rewrite Ev', Ev. auto.
         * rewrite Ew'. exact Hk'.
         * rewrite Es'. exact E1.
       + (* a child collected on its own *)
         destruct (nth_error (s_kids s) i) as [k|] eqn:Ek'; [|apply nth_error_None in Ek'; lia].
-        destruct (Forall2_nth_error_l _ _ _ _ _ (Rh_kids _ _ _ HR) Ek') as (x & Ex & Hcx).
+        destruct (Forall2_nth_error_l _ _ _ _ _ (Rh_kids _ _ HR) Ek') as (x & Ex & Hcx).
         assert (Hbk : N.of_nat (length (c_obs k)) < two64).
         { rewrite Forall_forall in Bd. apply Bd. eapply nth_error_In; eauto. }
         destruct (hist_metric_shown k x Hcx Hbk) as (m & x' & Hm & Hc' & _).
         unfold collector_of. rewrite Ex. rdh. unfold collect_collector, collect_hist. rewrite Ex, Hm. rdh.
-        eexists; split; [reflexivity|].
-        destruct HR as [A1 B1 C1 D1 E1 F1 G1 H1]. constructor; cbn [set_h w_vec w_h w_slots]; auto.
+        eexists; split; [reflexivity|]. intros _.
+        destruct HR as [A1 B1 C1 D1 E1 F1]. constructor; cbn [set_h w_vec w_h w_slots]; auto.
         apply Forall2_list_set_r; auto. intros a Ea. assert (a = k) by congruence. subst a. exact Hc'.
   Qed.
 
-  Lemma sim_walk_h ops : forall s w, Rh (length ops) s w -> Forall (fun o => allowed_hist o = true) ops -> Forall tup_ok_h ops ->
+  Lemma small_walk_head s ops obs : small_walk s ops obs = true -> st_small s = true.
+  Proof. destruct ops, obs; cbn [small_walk]; intros H; apply andb_true_iff in H; apply H. Qed.
+  Lemma sim_walk_h ops : forall s w, Rh s w -> Forall (fun o => allowed_hist o = true) ops -> Forall tup_ok_h ops ->
+    small_walk s ops (run w ops) = true ->
     exists b, walk key0 same0 s ops (run w ops) = Some b.
   Proof.
-    induction ops as [|o ops IH]; intros s w HR Fa Ft; cbn [run walk]; [eauto|].
-    inversion Fa; subst. inversion Ft; subst. cbn [length] in HR.
-    destruct (sim_step_h _ s w o HR H1 H3) as (s' & Es & HR'). destruct (step w o) as [w' ob]. cbn [fst snd] in *.
-    cbn [walk]. rewrite Es. apply IH with (w := w'); auto.
+    induction ops as [|o ops IH]; intros s w HR Fa Ft Hsw; cbn [run walk]; [eauto|].
+    inversion Fa; subst. inversion Ft; subst. pose proof (small_walk_head _ _ _ Hsw) as Hsm.
+    destruct (sim_step_h s w o HR H1 H3 Hsm) as (s' & Es & HR'). cbn [run] in Hsw.
+    destruct (step w o) as [w' ob]. cbn [fst snd] in *.
+    cbn [walk small_walk] in *. rewrite Es in *. apply andb_true_iff in Hsw as [_ Hsw].
+    apply IH with (w := w'); auto. apply HR'. exact (small_walk_head _ _ _ Hsw).
   Qed.
 End SimHist.
 
 (* ================= 5. the theorem ================= *)
 (* histogram vector scenarios: valid buckets; requests, removals, reset of the vector, observe / sample_count /
-   sample_sum through handles, collect, clone; fewer than 2^64 operations (a u64 count cannot wrap) *)
+   sample_sum through handles, collect, clone, local histogram vectors (local on the vector's own slot, observe,
+   flush, remove); along the run no ledger count reaches 2^63 (a u64 count cannot wrap) *)
 Definition in_domain_hist (ops : list op) : bool :=
   match ops with
   | OpHistVec ho labels :: rest =>
       is_Ok (vec_create (opts_with_vars (ho_common ho) labels) (VKHist (ho_buckets ho)))
       && match check_and_adjust_buckets (ho_buckets ho) with Some _ => true | None => false end
-      && forallb allowed_hist rest && (N.of_nat (length rest) <? two64)
+      && forallb allowed_hist rest && small_walk st0 ops (run world0 ops)
   | _ => false
   end.
 Definition in_domain (ops : list op) : bool := in_domain_value ops || in_domain_hist ops.
@@ -1206,14 +1515,15 @@ Definition in_domain (ops : list op) : bool := in_domain_value ops || in_domain_
 Lemma hist_scenario ho labels rest v bs :
   vec_create (opts_with_vars (ho_common ho) labels) (VKHist (ho_buckets ho)) = Ok v ->
   check_and_adjust_buckets (ho_buckets ho) = Some bs ->
-  forallb allowed_hist rest = true -> N.of_nat (length rest) < two64 ->
+  forallb allowed_hist rest = true ->
   no_collision_on (all_tuples labels rest) = true ->
   let info := mkVI KHist labels (o_consts (ho_common ho)) in
   let s1 := mkSt [info] [] [SVec O] false in
   let w1 := push_slot (set_vec world0 [v]) (HVec O) in
+  small_walk s1 rest (run w1 rest) = true ->
   exists b, walk key0 same0 s1 rest (run w1 rest) = Some b.
 Proof.
-  intros Hv Hb Ha Hl Hn info s1 w1.
+  intros Hv Hb Ha Hn info s1 w1 Hsw.
   destruct (vec_create_inv _ _ _ Hv) as (Co & Eo & Ek & Ech).
   pose proof Co as [Dd _]. rewrite Eo in Dd. unfold describe in Dd. cbn [opts_with_vars o_vars o_consts o_help] in Dd.
   apply desc_new_inv in Dd as (_ & _ & _ & names & _ & Ed).
@@ -1229,6 +1539,7 @@ Proof.
     + repeat constructor.
   - apply Forall_forall. rewrite forallb_forall in Ha. exact Ha.
   - apply tup_ok_all.
+  - exact Hsw.
 Qed.
 
 Theorem spec_model_hist ops : in_domain_hist ops = true -> no_collision ops = true -> spec_c05 ops (run world0 ops) = true.
@@ -1236,10 +1547,10 @@ Proof.
   intros Hd Hn. rewrite spec_c05_unfold. unfold in_domain_hist in Hd. unfold no_collision in Hn.
   destruct ops as [|o0 rest]; [discriminate|]. destruct o0; try discriminate Hd; cbn [scenario_names tl] in Hn.
   apply andb_true_iff in Hd as [Hd Hl]. apply andb_true_iff in Hd as [Hd Ha]. apply andb_true_iff in Hd as [Hc Hb].
-  apply N.ltb_lt in Hl.
   destruct (vec_create (opts_with_vars (ho_common o) labels) (VKHist (ho_buckets o))) as [v|e] eqn:Ev; [|discriminate].
   destruct (check_and_adjust_buckets (ho_buckets o)) as [bs|] eqn:Eb; [|discriminate].
-  destruct (hist_scenario o labels rest v bs Ev Eb Ha Hl Hn) as (b & Hb').
+  cbn [run step] in Hl. rewrite Ev in Hl. cbn [small_walk sstep new_vec] in Hl. apply andb_true_iff in Hl as [_ Hl].
+  destruct (hist_scenario o labels rest v bs Ev Eb Ha Hn Hl) as (b & Hb').
   cbn [run step walk]. rewrite Ev. cbn [walk sstep new_vec]. cbn in Hb'. cbn. rewrite Hb'. reflexivity.
 Qed.
 
@@ -1309,8 +1620,11 @@ Definition small_hist_scenario : list op :=
   [OpHistVec (mkHOpts (mkOpts [] [] [109] [104] (amap_of [([107], [49])]) []) [bits2f 0x3ff0000000000000; bits2f 0x4010000000000000]) [[120]; [121]];
    OpWith 0%nat [[97; 98]; [99]]; OpObserve 1%nat (bits2f 0x3ff0000000000000);
    OpWithMap 0%nat [([121], [98; 99]); ([120], [97])]; OpObserve 2%nat (bits2f 0x4000000000000000);
-   OpWith 0%nat [[97]]; OpCollect 0%nat; OpRemove 0%nat [[97; 98]; [99]]; OpWith 0%nat [[97; 98]; [99]];
-   OpSampleCount 1%nat; OpSampleSum 2%nat; OpSampleCount 4%nat; OpCollect 0%nat].
+   OpWith 0%nat [[97]]; OpCollect 0%nat; OpLocal 0%nat; OpLvObserve 4%nat [[97; 98]; [99]] (bits2f 0x4010000000000000);
+   OpLvObserve 4%nat [[]; []] (bits2f 0x4020000000000000); OpFlush 4%nat;
+   OpRemove 0%nat [[97; 98]; [99]]; OpLvRemove 4%nat [[97; 98]; [99]]; OpLvObserve 4%nat [[97; 98]; [99]] (bits2f 0x4030000000000000);
+   OpWith 0%nat [[97; 98]; [99]]; OpFlush 4%nat;
+   OpSampleCount 1%nat; OpSampleSum 2%nat; OpSampleCount 5%nat; OpCollect 0%nat].
 Example corpus_in_domain :
   in_domain corpus_boundary_cu = true /\ no_collision corpus_boundary_cu = true
   /\ in_domain small_hist_scenario = true /\ no_collision small_hist_scenario = true.
